@@ -14,6 +14,7 @@ import random
 
 import cli_common as K
 import common as C
+import fault_probes as FP
 from props.c08 import parse_mismatches
 
 def in_model(case):
@@ -296,6 +297,8 @@ def run(R, only=None):
         ncrash = run_crashes(R, scr, subset, full=R.tier == "thorough")
         R.notes["crash_points_exercised"] = ncrash
         R.notes["crash_configurations"] = len(subset)
+        # faults at the move step (destination is a directory; the rename is refused): judged directly against the property
+        FP.run_and_judge(R, FP.UPDATE_PROBES, "C16")
     finally:
         scr.close()
     R.notes["rule"] = ("product protocol {0,1,current,current+1} x output {none,bare,nested relative,absolute,same as input} x inplace x "
@@ -303,7 +306,8 @@ def run(R, only=None):
                        "one subprocess per case; non-trivial = a configuration in which the property requires a write")
     R.notes["uncovered"] = ["dump() raising inside update (no loadable-but-undumpable object in the generator)",
                             "input archive that does not load"]
-    R.notes["not_modelled"] = ["power loss / fsync ordering", "tempfile internals beyond mkdtemp's freshness", "symlinks, permissions"]
+    R.notes["not_modelled"] = ["power loss / fsync ordering", "tempfile internals beyond mkdtemp's freshness",
+                               "symlinks, permissions (failing moves are probed on the implementation only: harness/impl_faults.py)"]
     R.notes["guards"] = ["fits: input exists, destination is not a directory, mkdtemp's name is fresh and differs from the destination's name",
                          "C16_legacy_xfs_refuted / C16_legacy_nested_refuted: witnesses about the code before fix 85d3b6b (D23 / D22)"]
     if broke:
@@ -312,6 +316,8 @@ def run(R, only=None):
 
 def replay(R, rep):
     r = rep.get("replay") or {}
+    if r.get("mode") == "fault-probe":
+        return FP.run_and_judge(R, [r["probe"]], "C16")
     if r.get("mode") != "update":
         return run(R)
     case = r["case"]
